@@ -44,6 +44,8 @@ int (* vk_on_connect)(struct vsock *, int, struct vk_connect_answer *);
 int (* vk_on_socket)(void);
 void (* vk_on_close)(struct vsock *);
 void (* vk_on_recv)(struct vsock *, long, int);
+const void * vk_last_recv_buf;
+size_t vk_last_recv_len;
 void (* vk_on_send)(struct vsock *, const void *, long, int);
 
 uint64_t
@@ -437,6 +439,8 @@ __wrap_recv(int fd, void * buf, size_t len, int flags)
 
 	if (s == NULL)
 		return (__real_recv(fd, buf, len, flags));
+	vk_last_recv_buf = buf;
+	vk_last_recv_len = len;
 	s->n_recv++;
 	vk_stats.recv_calls++;
 	d = tape_next(&s->t_recv);
